@@ -156,7 +156,11 @@ VBigInt(dt, c, path) ==
       [] c.j = "special" -> AnyErr
       [] OTHER -> {WT}
 (* a big integer offered to a type whose limits are all small is "beyond every model limit" *)
-Nrm(d, c) == IF d.k # "bigint" /\ c.j = "bint" THEN I(IF PLE(P(0, 0), P(c.a, c.d)) THEN HUGE ELSE -HUGE) ELSE c
+(* (a value of a bigint type is always a position, also a small one: anchor 0 with |d| < HUGE is the plain integer d) *)
+Nrm(d, c) == IF d.k # "bigint" /\ c.j = "bint"
+             THEN IF c.a = 0 /\ Abs(c.d) < HUGE THEN I(c.d)
+                  ELSE I(IF PLE(P(0, 0), P(c.a, c.d)) THEN HUGE ELSE -HUGE)
+             ELSE c
 
 (* scaled: physical value on the grid k*scale; tolerance one grid step (the exact *)
 (* boundary min-scale / max+scale is not decided), result clamped on the grid;    *)
